@@ -77,19 +77,30 @@ class C07(Prop):
               "recorded centre is update_path[0], given one bond dimension per two-site update, the step SUCCEEDS, keeps the store invariant, the "
               "node identifiers, every parent pointer, every children set and the root, and ends with the recorded centre on update_path[0] "
               "(C07_two_site_step_on_store); one two-site update touches no third node and removes the temporary node (C07_two_site_update_on_store)"),
+        ("F", "canonical form, for EVERY tree (Evo/TDVPTwoSiteIso.v): the extended isometry attribute iso_check2 (every non-centre node is a single atom, the "
+              "first factor of a QR call or of a truncated-SVD call, whose bond wire sits on the node's leg toward the recorded centre) is an invariant "
+              "of every event of the two-site trace - tensor reads, the evolved tensor at the centre, QR centre moves, and the two-site update, which "
+              "leaves U on the node the centre leaves (C07_two_site_update_canonical); hence for every tree with unique ids and >= 2 nodes, every wfb "
+              "store matching it (any child order) with iso_check2 at update_path[0] and enough bond dimensions, the step succeeds and ends with "
+              "iso_check2 at update_path[0] (C07_two_site_step_canonical), for any number of consecutive steps (C07_two_site_steps_canonical); "
+              "canonical_form and the modelled constructor establish the hypothesis (C07_canonical_form_establishes, C07_constructor_establishes)"),
         ("I", "per explored instance: schedule checker + duration checker on the exactly matching model trace; store-level tie (c07w): build programme "
               "accepted, tree_of = live tree, every model stage defined, the number of SVD kernel calls = the number of two-site updates of the model, "
               "and the extended isometry attribute iso_check2 (every non-centre node is the first factor of a QR or truncated-SVD call with its bond "
-              "toward the recorded centre: canonical form at the recorded centre) after the constructor and after every step"),
+              "toward the recorded centre: canonical form at the recorded centre) after the constructor and after every step (evaluated on the "
+              "instance as a cross-check of the tie; the statement itself is the universal clause above)"),
         ("V", "conservation, two-node exactness (exp(A/2)^2 = exp(A) of the kernel), numerical isometry check of the real tensors (SVD/QR kernel "
-              "contracts), bond bounds: numerical / runtime oracle; canonical form of the two-site step as a universal statement is not proved "
-              "(per instance only)"),
+              "contracts), bond bounds: numerical / runtime oracle; that the symbolic attribute iso_check2 denotes isometries of the REAL tensors "
+              "rests on the kernel contracts (Q of QR, U of the truncated SVD are isometries w.r.t. the bond leg) and is validated numerically"),
     ]
     trusted_base = ["store-level tie: harness/props/c07w.py + c06w.py + wmodel.py (exact comparison of node dict order, parents, children order, leg "
                     "permutations, raw shapes, tensor dict order, root, centre after the constructor and after up to two steps; the bond dimensions of the "
                     "truncated SVDs are read at the kernel boundary contr_truncated_svd_splitting and handed to the model)",
                     "np.linalg.eigh for the reference propagator; einsum for dense states; kron for the dense Hamiltonian",
-                    "LAPACK SVD inside split_node_svd is exercised, not modelled (C11)"]
+                    "LAPACK SVD inside split_node_svd is exercised, not modelled (C11); kernel contract behind the canonical-form theorem: the first "
+                    "factor of a kind-0 (QR) or kind-4 (truncated SVD, U) kernel call is an isometry from its other legs to the bond leg - the theorem "
+                    "C07_two_site_step_canonical is about the symbolic attribute iso_check2 of the store model (which call produced which tensor, and "
+                    "where its bond leg points), not about floating-point entries"]
     assumptions = ["Hermitian Hamiltonian for conservation and exactness; truncation disabled means max_bond_dim=inf, tolerances -inf"]
 
     def generate(self, ctx, stream, budget_scale=1):
